@@ -548,9 +548,85 @@ fn gen_common(thorough: bool, rng: &mut Rng) -> Result<(), String> {
     Ok(())
 }
 
+/// C07: the model proves (harness-supplied randomness of the prescribed sizes), the library verifies
+fn gen_refprove(thorough: bool, rng: &mut Rng) -> Result<(), String> {
+    let pool = Pool::load()?;
+    let names: Vec<String> = pool.defs.iter().map(|(n, _)| n.clone()).collect();
+    let n = if thorough { 150 } else { 10 };
+    for k in 0..n {
+        let name = rng.pick(&names).clone();
+        let cd = pool.get(&name);
+        let link = dec_of_hex(&rng.hex_bits(255));
+        let h = hold(&pool, &name, &link, rng)?;
+        let req = random_request(&h, rng, true);
+        let mut vals: BTreeMap<String, String> = h.known.clone();
+        for (a, v) in &h.hidden { vals.insert(a.clone(), v.clone()); }
+        let draw = |rng: &mut Rng, bits: usize| dec_of_hex(&rng.hex_bits(bits));
+        let mut m_tilde = BTreeMap::new();
+        for a in cd.attrs.iter().chain(cd.non_attrs.iter()) {
+            if !req.revealed.contains(a) && a != "master_secret" {
+                m_tilde.insert(a.clone(), draw(rng, 592));
+            }
+        }
+        let common: BTreeMap<String, String> = [("master_secret".to_string(), draw(rng, 592))].into_iter().collect();
+        let mut ptapes = vec![];
+        for _ in &req.predicates {
+            let mut r = BTreeMap::new();
+            let mut ut = BTreeMap::new();
+            let mut rt = BTreeMap::new();
+            for i in 0..4 {
+                r.insert(i.to_string(), draw(rng, 2128));
+                ut.insert(i.to_string(), draw(rng, 592));
+                rt.insert(i.to_string(), draw(rng, 672));
+            }
+            r.insert("DELTA".to_string(), draw(rng, 2128));
+            rt.insert("DELTA".to_string(), draw(rng, 672));
+            ptapes.push(json!({"r": r, "u_tilde": ut, "r_tilde": rt, "alpha_tilde": draw(rng, 2787)}));
+        }
+        let nonce = new_nonce().map_err(|e| e.to_string())?.to_dec().unwrap_or_default();
+        emit(&json!({"id": format!("refprove/{}", k), "op": "prove",
+            "in": {"backend": backend_str(), "mode": mode_str(), "pk": jv(&cd.pk)["p_key"], "sig": jv(&h.cred.sig)["p_credential"],
+                   "values": vals, "schema": cd.attrs, "non_schema": cd.non_attrs, "req": req.to_json(), "common": common,
+                   "tape": {"r": draw(rng, 2128), "e_tilde": draw(rng, 456), "v_tilde": draw(rng, 3060), "m_tilde": m_tilde,
+                            "m2_tilde": draw(rng, 2432), "preds": ptapes},
+                   "nonce": nonce},
+            "impl": {"exec": {"op": "verify_proof", "in": {"def": name, "req": req.to_json(), "common": ["master_secret"], "nonce": nonce}}, "expect_accept": true},
+            "class": {"kind": "reference-prover", "npred": req.predicates.len(), "nrevealed": req.revealed.len(), "def": name}}));
+    }
+    Ok(())
+}
+
+/// exec: verify a proof document against a fixture credential definition
+pub fn exec(op: &str, inp: &Value) -> Option<Result<Value, String>> {
+    match op {
+        "verify_proof" => Some((|| {
+            let cd = load_fixture(inp["def"].as_str().unwrap_or(""))?;
+            let revealed: Vec<String> = from_jv(&inp["req"]["revealed"])?;
+            let predicates: Vec<PredSpec> = inp["req"]["predicates"].as_array().map(|a| a.iter().map(|p| PredSpec {
+                attr: p["attr_name"].as_str().unwrap_or("").to_string(), ptype: p["p_type"].as_str().unwrap_or("").to_string(),
+                value: p["value"].as_i64().unwrap_or(0) as i32 }).collect()).unwrap_or_default();
+            let req = ReqSpec { revealed, predicates };
+            let common: Vec<String> = from_jv(&inp["common"])?;
+            let nonce = bn::BigNumber::from_dec(inp["nonce"].as_str().unwrap_or("")).map_err(|e| e.to_string())?;
+            let res: Out<bool> = match from_jv::<Proof>(&inp["proof"]) {
+                Ok(p) => guard(|| {
+                    let mut pv = Verifier::new_proof_verifier()?;
+                    for a in &common { pv.add_common_attribute(a)?; }
+                    pv.add_sub_proof_request(&req.build().map_err(|e| err_msg_s(&e))?, &cd.schema, &cd.non_schema, &cd.pk, None, None)?;
+                    pv.verify(&p, &nonce)
+                }),
+                Err(e) => Out::Err(format!("decode: {}", e)),
+            };
+            Ok(out_bool_json(&res))
+        })()),
+        _ => None,
+    }
+}
+
 pub fn gen(stream: &str, thorough: bool, rng: &mut Rng) -> Option<Result<(), String>> {
     match stream {
         "pres" => Some(gen_pres(thorough, rng)),
+        "refprove" => Some(gen_refprove(thorough, rng)),
         "common" => Some(gen_common(thorough, rng)),
         "predgrid" => Some(gen_predgrid(thorough, rng)),
         "tamper" => Some(crate::tamper::gen_tamper(thorough, rng, false)),
